@@ -385,7 +385,9 @@ static std::string show(const Tensor &t) {
 }
 static std::string show(const Node &n) {
   if (!n.valid()) return "invalid-node";
-  return n.shape().to_string() + ":" + show(n.to_vector());
+  // operators check some arguments only when the value is computed
+  try { return n.shape().to_string() + ":" + show(n.to_vector()); }
+  catch (const std::exception &e) { return std::string("evaluation throws: ") + e.what(); }
 }
 static std::string show(const Parameter &p) {
   if (!p.valid()) return "invalid-parameter";
@@ -965,6 +967,7 @@ static void register_training() {
     bool iv = A.n.size() && A.n.back() == -7;
     Parameter a, b;
     if (!iv) { a.init(A.sh(0), A.t(0).v, E.dev); b.init(A.sh(0), A.t(0).v, E.dev); }
+    const Parameter &kb = b;   // the wrappers of the accessors take a const handle
     const std::string &nm = A.s(0);
     std::vector<std::string> obs;
     obs.push_back(verdict(CC(PRIMITIV_C_BOOL r = 9; PRIMITIV_C_STATUS st = primitivHasParameterStats(c(&a), nm.c_str(), &r); out = b2s(r != 0); return st;),
@@ -974,16 +977,16 @@ static void register_training() {
     obs.push_back(verdict(CC(PRIMITIV_C_BOOL r = 9; PRIMITIV_C_STATUS st = primitivHasParameterStats(c(&a), nm.c_str(), &r); out = b2s(r != 0); return st;),
                           PP(return b2s(b.has_stats(nm));)));
     obs.push_back(verdict(CC(const primitivTensor_t *t = nullptr; PRIMITIV_C_STATUS st = primitivGetParameterStats(c(&a), nm.c_str(), &t);
-                             if (st == OKST) out = show(*cpp(t)) + (cpp(t) == &a.stats(nm) ? " same-object" : " copy"); return st;),
-                          PP(return show(b.stats(nm)) + " same-object";)));
+                             if (st == OKST) out = show(*cpp(t)) + (cpp(t) == &static_cast<const Parameter &>(a).stats(nm) ? " same-object" : " copy"); return st;),
+                          PP(return show(kb.stats(nm)) + " same-object";)));
     obs.push_back(verdict(CC(const primitivTensor_t *t = nullptr; PRIMITIV_C_STATUS st = primitivGetParameterStats(c(&a), "no-such-stats", &t); return st;),
-                          PP(b.stats("no-such-stats"); return "";)));
+                          PP(kb.stats("no-such-stats"); return "";)));
     obs.push_back(verdict(CC(const primitivTensor_t *t = nullptr; PRIMITIV_C_STATUS st = primitivGetParameterValue(c(&a), &t);
                              if (st == OKST) out = show(*cpp(t)) + (cpp(t) == &a.value() ? " same-object" : " copy"); return st;),
-                          PP(return show(b.value()) + " same-object";)));
+                          PP(return show(kb.value()) + " same-object";)));
     obs.push_back(verdict(CC(const primitivTensor_t *t = nullptr; PRIMITIV_C_STATUS st = primitivGetParameterGradient(c(&a), &t);
                              if (st == OKST) out = show(*cpp(t)) + (cpp(t) == &a.gradient() ? " same-object" : " copy"); return st;),
-                          PP(return show(b.gradient()) + " same-object";)));
+                          PP(return show(kb.gradient()) + " same-object";)));
     obs.push_back(verdict(CC(primitivShape_t *y = nullptr; PRIMITIV_C_STATUS st = primitivGetParameterShape(c(&a), &y); fin(st, y, out); return st;),
                           PP(return show(b.shape());)));
     obs.push_back(verdict(CC(primitivDevice_t *d = nullptr; PRIMITIV_C_STATUS st = primitivGetDeviceFromParameter(c(&a), &d); out = cpp(d) == &E.dev ? "dev" : "?"; return st;),
@@ -1026,22 +1029,23 @@ static void register_training() {
     obs.push_back(verdict(CC(return primitivAddSubmodelToModel(c(&ma), n2.c_str(), c(&sa));), PP(mb.add(n2, sb); return "";)));
     obs.push_back(verdict(CC(return primitivAddSubmodelToModel(c(&sa), n1.c_str(), c(&ma));), PP(sb.add(n1, mb); return "";)));
     obs.push_back(verdict(CC(return primitivAddParameterToModel(c(&sa), n1.c_str(), c(&qa));), PP(sb.add(n1, qb); return "";)));
+    const Model &kmb = mb;   // the lookups take a const handle
     const char *path1[1] = {n1.c_str()};
     const char *path2[2] = {n2.c_str(), n1.c_str()};
     const char *path3[2] = {n1.c_str(), n2.c_str()};
     obs.push_back(verdict(CC(const primitivParameter_t *r = nullptr; PRIMITIV_C_STATUS st = primitivGetParameterFromModel(c(&ma), path1, 1, &r);
                              if (st == OKST) out = cpp(r) == &pa ? "p" : "?"; return st;),
-                          PP(return &mb.get_parameter(std::vector<std::string>{n1}) == &pb ? "p" : "?";)));
+                          PP(return &kmb.get_parameter(std::vector<std::string>{n1}) == &pb ? "p" : "?";)));
     obs.push_back(verdict(CC(const primitivParameter_t *r = nullptr; PRIMITIV_C_STATUS st = primitivGetParameterFromModel(c(&ma), path2, 2, &r);
                              if (st == OKST) out = cpp(r) == &qa ? "q" : "?"; return st;),
-                          PP(return &mb.get_parameter(std::vector<std::string>{n2, n1}) == &qb ? "q" : "?";)));
+                          PP(return &kmb.get_parameter(std::vector<std::string>{n2, n1}) == &qb ? "q" : "?";)));
     obs.push_back(verdict(CC(const primitivParameter_t *r = nullptr; return primitivGetParameterFromModel(c(&ma), path3, 2, &r);),
-                          PP(mb.get_parameter(std::vector<std::string>{n1, n2}); return "";)));
+                          PP(kmb.get_parameter(std::vector<std::string>{n1, n2}); return "";)));
     obs.push_back(verdict(CC(const primitivModel_t *r = nullptr; PRIMITIV_C_STATUS st = primitivGetSubmodelFromModel(c(&ma), path2, 1, &r);
                              if (st == OKST) out = cpp(r) == &sa ? "s" : "?"; return st;),
-                          PP(return &mb.get_submodel(std::vector<std::string>{n2}) == &sb ? "s" : "?";)));
+                          PP(return &kmb.get_submodel(std::vector<std::string>{n2}) == &sb ? "s" : "?";)));
     obs.push_back(verdict(CC(const primitivModel_t *r = nullptr; return primitivGetSubmodelFromModel(c(&ma), path3, 2, &r);),
-                          PP(mb.get_submodel(std::vector<std::string>{n1, n2}); return "";)));
+                          PP(kmb.get_submodel(std::vector<std::string>{n1, n2}); return "";)));
     std::string fa = tmp_path("ma.bin"), fb = tmp_path("mb.bin");
     std::remove(fa.c_str()); std::remove(fb.c_str());
     obs.push_back(verdict(CC(PRIMITIV_C_STATUS st = primitivSaveModel(c(&ma), fa.c_str(), 1); if (st == OKST) out = file_bytes(fa); return st;),
@@ -1295,7 +1299,7 @@ static PRIMITIV_C_STATUS do_fail(const std::string &k, Local &L, std::string &ex
   if (k == "matmul") { CPPFAIL(F::matmul(L.t23, L.t23)) primitivTensor_t *y = nullptr; return primitivApplyTensorMatmul(c(&L.t23), c(&L.t23), &y); }
   if (k == "nofile") { Parameter p; CPPFAIL(p.load(tmp_path("does-not-exist"), true, &L.dev))
                        return primitivLoadParameter(c(&p), tmp_path("does-not-exist").c_str(), 1, c(static_cast<Device *>(&L.dev))); }
-  if (k == "stats") { CPPFAIL(L.par.stats("nostat")) const primitivTensor_t *t = nullptr; return primitivGetParameterStats(c(&L.par), "nostat", &t); }
+  if (k == "stats") { CPPFAIL(static_cast<const Parameter &>(L.par).stats("nostat")) const primitivTensor_t *t = nullptr; return primitivGetParameterStats(c(&L.par), "nostat", &t); }
   throw BadOp();
 }
 
